@@ -588,6 +588,11 @@ def ibench_unit(res):
 
         def havoc(self, ex_, env):
             fresh_heap("!")
+            # a local that the body binds only on some paths may still hold what an EARLIER line left in it: model that as a
+            # reference to the entry of an arbitrary form (code that always rebinds it before use never sees this value)
+            for nm in st.get("carried", ()):
+                if nm not in env or isinstance(env[nm], EntryRef):
+                    env[nm] = EntryRef(z3.FreshInt("form_of_an_earlier_line"))
 
         def on_body_start(self, ex_, env, k):
             st["k"], st["stored"] = k, 0
@@ -597,6 +602,10 @@ def ibench_unit(res):
 
     ex.loop_hooks[("_get_ibench_output", 0)] = Hook()
     ex.invariants[("_get_ibench_output", 0)] = inv
+    # names assigned somewhere in the loop body (candidates for values carried over from an earlier iteration)
+    import ast as _ast
+    _loop = [n_ for n_ in _ast.walk(ex.funcs["_get_ibench_output"]) if isinstance(n_, _ast.For)][0]
+    carried_names = sorted({t.id for n_ in _ast.walk(_loop) if isinstance(n_, _ast.Assign) for t in n_.targets if isinstance(t, _ast.Name)} & {"entry"})
     j1, j2 = z3.Ints("j1 j2")
     uniq = z3.ForAll([j1, j2], z3.Implies(z3.And(data(j1), data(j2), form(j1) == form(j2), tag(j1) == tag(j2), z3.Or(tag(j1) == 0, tag(j1) == 1)), j1 == j2))
     q = z3.Int("q")
@@ -604,6 +613,7 @@ def ibench_unit(res):
         def run(isa=isa):
             st.clear()
             st["isa"] = isa
+            st["carried"] = carried_names
             fresh_heap("0")
             return ex.call_function("_get_ibench_output", [SymSeq(N, lambda j: Line(j)), isa])
 
